@@ -64,6 +64,8 @@ def decode(data: bytes) -> dict:
     case["restart_early"] = d.p(0.15)
     if case["transport"] == "tcp" and d.p(0.25):
         case["host"] = "::1"          # TCP over the IPv6 loopback (peer names are 4-tuples there)
+    if case["transport"] == "unix" and d.p(0.25):
+        case["stale"] = True          # a socket file left behind at the address by an earlier process (asyncio replaces it)
     if d.p(0.3):
         # keyword arguments the server passes through to asyncio.start_server / start_unix_server
         case["kwargs"] = d.pick(SERVER_KWARGS)
@@ -119,7 +121,7 @@ class C19Engine(Engine):
                 c = copy.deepcopy(case)
                 c[key] = False
                 out.append(c)
-        for key in ("kwargs", "host"):
+        for key in ("kwargs", "host", "stale"):
             if key in case:
                 c = copy.deepcopy(case)
                 del c[key]
@@ -158,6 +160,12 @@ class C19Engine(Engine):
                 server: Any = TCPControlServer(pool, host=host, port=0, **skw)
                 labels.add("tcp-host:" + host)
             else:
+                if case.get("stale"):
+                    import socket as _socket
+                    sk = _socket.socket(_socket.AF_UNIX)
+                    sk.bind(path)
+                    sk.close()
+                    labels.add("unix:stale-socket-file-at-the-address")
                 server = UnixControlServer(pool, socket_path=path, **skw)
             try:
                 task = await asyncio.wait_for(server.serve_forever(), BOUND)
